@@ -94,9 +94,34 @@ DESC = {
  "S89": ("C07", "the handlers of one DELETE are split per row-set with `chunk_by` (consecutive runs) collected into a HashMap: only the last run of a row-set survives", "primary-key table, >= 2 row-sets with interleaving keys, one DELETE covering rows of both"),
  "S90": ("C09", "`try_lock_for_compaction` locks a fresh, unregistered mutex when the table has no lock-map entry yet", "the first DELETE on a table since open, started while the compactor is inside that table's compaction"),
  "S91": ("C10", "orphan row-sets / delete vectors are checked while the manifest is replayed instead of after it (same site as S18)", "an INSERT whose commit is between manifest append and publication when a DROP TABLE of the same table pins its snapshot; shutdown + reopen"),
+ "S92": ("C01", "constant analysis folds `col IS NULL` to false for a column declared NOT NULL / PRIMARY KEY", "IS [NOT] NULL over such a column on the NULL-padded side of an outer join with an unmatched row (the anti-join idiom)"),
+ "S93": ("C03", "bootstrap restores the next row-set / delete-vector id from the highest table's highest id instead of the global maximum", ">= 2 tables where the newest row-set belongs to a table other than the highest-id one, then reopen and INSERT / DELETE"),
+ "S94": ("C04", "the boot-time vacuum of orphan delete-vector files runs only when the manifest holds a live delete vector", "a DELETE dying between its DV file and its manifest record while no DV is live; the retry is issued the same DV id"),
+ "S95": ("C06", "a nullable VARCHAR column opens a non-nullable block when the chunk being appended has no NULL", "a block opened by a NULL-free chunk and continued by a chunk with NULLs (several chunks per row-set)"),
+ "S96": ("C08", "per-epoch pin reference counts become a set: the first unpin releases the epoch for every holder", "two pins on one epoch (a second reader, or the compactor), one of them dropped after a row-set deletion committed"),
+ "S97": ("C10", "the per-table lock is keyed by (table, deletion | compaction): DELETE / DROP and compaction no longer exclude each other", "a DELETE pinning before a compaction of its table commits and committing after it"),
+ "S98": ("C13", "an exclusive INT lower bound `k > v` is pushed as `k >= v.saturating_add(1)`", "a strict lower bound at 2147483647 on an INT key with a live row k = i32::MAX"),
+ "S99": ("C14", "DOUBLE -> integer casts check the range in floating point (`T::MAX as f64` rounds up) and then saturate", "CAST of exactly 2^63 to BIGINT"),
+ "S100": ("C17", "`name_of` returns `Ref(id)` without canonicalising the e-class id", "a derived table with two select items a rewrite proves equal (a + a, a * 2), one of them used by a third, pruned through two push-down levels"),
+ "S101": ("C18", "the index decode loop stops at the block count of the (unchecksummed) footer", "a corrupted block count in an .idx footer that is smaller than the real one, on a column of >= 2 blocks"),
+ "S102": ("C20", "the CSV reader of COPY FROM gets a comment character `#`", "a first-column text cell starting with `#` that needs no quoting"),
+ "S103": ("C11", "join keys of different numeric types are cast only when every key pair needs a cast (`all` became `any` in the early return)", "a composite equi-join key with one same-typed pair and one INT = DECIMAL pair, run as hash / merge join"),
+ "S104": ("C16", "the common type of VALUES rows is computed against the first row instead of the accumulated type", "INSERT ... VALUES of >= 3 rows where a middle row widens a column and a later row widens it less"),
+ "S105": ("C19", "INTERVAL ordering compares the normalised length while equality and hash stay field-wise", "two intervals with different fields and equal length (1 month vs 30 days)"),
+ "S106": ("C02", "the nested-loop join returns early when its left input is empty", "RIGHT / FULL join with a non-equi condition and an empty left input"),
+ "S107": ("C05", "the column iterator's fetch hint is taken from the current block iterator, also after a skip that deferred loading the next block", "a delete vector covering whole blocks so that a skipped batch ends on a block boundary before a shorter last block"),
+ "S108": ("C12", "top-N skips incoming rows by a per-chunk bound taken once the heap holds `limit` rows (not `offset + limit`)", "ORDER BY ... LIMIT n OFFSET m > 0 over >= 2 input chunks with between n and m+n-1 rows seen at a chunk boundary"),
+ "S109": ("C15", "a per-statement fail-fast flag: an operator that produces a chunk after any operator failed returns silently", "an error in a non-root operator after data has reached an ancestor (chunk k >= 1): the ancestor's channel closes like end of input"),
+ "S110": ("C09", "DELETE checks a row handler's row-set against the version manager's object pool instead of its own snapshot", "a DELETE pinned before a compaction of its table commits, the lock taken afterwards, while an older snapshot keeps the replaced row-sets alive"),
  "S52": ("C10", "reverse of repair db497b9: the binder fetches the table by id with unwrap() after resolving its name", "DROP TABLE by another session between the binder's two catalog lookups (multi-thread runtime)"),
 }
 STRENGTHENED = {
+ "S83": "missed by the first C01 (LIMIT directly above a plain scan was almost never generated; C12 caught it); caught after the `bare_scan` shape (LIMIT / ORDER BY above a plain column scan, limits around the real row count, mocked statistics) was added",
+ "S91": "missed by the first C10; caught after DDL/DML race gates were added to the current-thread leg",
+ "S92": "missed by the first C01 (C02 caught it); caught after the `outer_notnull_test` shape (IS [NOT] NULL over a NOT NULL / PRIMARY KEY column above an outer join) was added",
+ "S98": "missed by the first C13 (keys were drawn from -20..300); caught after the ends of the key type's range and their neighbours were added to keys and bounds",
+ "S99": "missed by the first C14 (casts to integers were modelled from integers only); caught after the scalar model covers DOUBLE / DECIMAL sources and the double pool holds the ends of the integer ranges (2^15, 2^31, 2^63 and neighbours)",
+ "S100": "missed by the first C17 / C01; caught after the `derived_twins` shape (a derived table whose select items are one expression after a rewrite, one of them used by a third item) was added",
  "S76": "missed by the first C12 (key values were unique by construction); caught after a third of the keyed tables hold duplicate key values and ORDER BY lists the key first, then another column",
  "S79": "missed by the first C16 / C14 (generated arithmetic was integer-typed, the DOUBLE x DECIMAL pair is not modelled by C14's scalar interpreter); caught after every fourth statement of leg A is built from columns of every numeric type (+ - * / %, CASE, CAST, aggregates)",
  "S87": "needed the natural-fault leg of C15 (statements whose own operators fail on a poison row / a bad CSV record at row k; the hook-injected faults sit in the operators' output loops and cannot reach a helper thread)",
@@ -116,7 +141,7 @@ STRENGTHENED = {
  "S28": "missed by the first C14 (LIKE not driven, projections only); caught after the predicate leg (boolean expression in projection / WHERE / NOT WHERE position vs a Python 3VL evaluator) was added",
 }
 rows = []
-for d in sorted(glob.glob(os.path.join(HERE, "seeded", "S*"))):
+for d in sorted(glob.glob(os.path.join(HERE, "seeded", "S*")), key=lambda p: int(re.match(r"S(\d+)", os.path.basename(p)).group(1))):
     sid = os.path.basename(d).split("-")[0]
     prop, what, needs = DESC[sid]
     results = []
